@@ -5,6 +5,7 @@ package sftp
 // C03 (each call gets its own reply) and C04 (connection loss) on concurrent single-packet calls.
 
 import (
+	"context"
 	"fmt"
 	"io"
 	"strings"
@@ -36,6 +37,9 @@ func (o cop) String() string {
 
 const callsFile = "abcdefgh"
 
+// callsCtx is the context of ReadDirCtx operations (one scenario at a time per process).
+var callsCtx = context.Background()
+
 // expected result of op against the peer's reference model (reads and writes use disjoint regions).
 func (o cop) expected() string {
 	switch o.kind {
@@ -52,6 +56,8 @@ func (o cop) expected() string {
 			return "err:permission"
 		}
 		return "ok"
+	case "ReadDirCtx":
+		return "*" // a listing or a context error: both are proper results
 	case "ReadAt":
 		return fmt.Sprintf("n=2 %q", callsFile[o.off:o.off+2])
 	case "ReadAt6":
@@ -96,6 +102,12 @@ func (o cop) do(c *Client, f *File) (string, error) {
 			return "", err
 		}
 		return fmt.Sprintf("n=%d %q", n, b[:n]), nil
+	case "ReadDirCtx": // a listing under a context that another thread cancels at some point
+		es, err := c.ReadDirContext(callsCtx, o.path)
+		if err != nil {
+			return "ctx-or-error", nil
+		}
+		return fmt.Sprintf("entries=%d", len(es)), nil
 	case "ReadAt6": // three chunks: the concurrent multi-packet path shares ids and channels with the other callers
 		b := make([]byte, 6)
 		n, err := f.ReadAt(b, int64(o.off))
@@ -126,6 +138,8 @@ func (o cop) matches(r preq) bool {
 		return r.typ == sshFxpRealpath && r.path == o.path
 	case "Mkdir":
 		return r.typ == sshFxpMkdir && r.path == o.path
+	case "ReadDirCtx":
+		return r.typ == sshFxpOpendir && r.path == o.path
 	case "ReadAt":
 		return r.typ == sshFxpRead && int(r.off) == o.off
 	case "ReadAt6":
@@ -137,14 +151,15 @@ func (o cop) matches(r preq) bool {
 }
 
 type callsSpec struct {
-	callers [][]cop
-	permute bool
-	cut     int // -1 none
-	cutErr  bool
-	fw      int
-	after   bool // one more Stat after all callers returned
-	sync1   bool // rendezvous c2s pipe
-	handsh  bool // the cut may fall into the handshake
+	ctxCancel bool // a harness thread cancels callsCtx at a point the explorer chooses
+	callers   [][]cop
+	permute   bool
+	cut       int // -1 none
+	cutErr    bool
+	fw        int
+	after     bool // one more Stat after all callers returned
+	sync1     bool // rendezvous c2s pipe
+	handsh    bool // the cut may fall into the handshake
 }
 
 func (s callsSpec) String() string {
@@ -198,6 +213,14 @@ func callsScenario(s callsSpec, prop string) explore.Scenario {
 			c := env.c
 			f := &File{c: c, path: "/f", handle: "h1"}
 			var g vgroup
+			if s.ctxCancel {
+				var cancel context.CancelFunc
+				callsCtx, cancel = context.WithCancel(context.Background())
+				g.Go("canceller", func() {
+					vsched.Env("ctx.cancel", &callsCtx, false, nil)
+					cancel()
+				})
+			}
 			for i := range s.callers {
 				i := i
 				results[i] = make([]callRes, len(s.callers[i]))
@@ -276,7 +299,7 @@ func callsScenario(s callsSpec, prop string) explore.Scenario {
 						x := fail("lost-reply:"+o.kind, "%s returned error %v although its reply was received completely", o, r.err)
 						return &x
 					}
-					if r.val != o.expected() {
+					if r.val != o.expected() && o.expected() != "*" {
 						x := fail("wrong-reply:"+o.kind, "%s returned %q, the server's answer to that request is %q (reply of another request?)", o, r.val, o.expected())
 						return &x
 					}
@@ -355,6 +378,13 @@ func c03Specs(set string) []callsSpec {
 			{callers: [][]cop{{rl("/l")}, {wa(0, "PQ")}, {ra(2)}}, permute: true, cut: -1},
 			{callers: [][]cop{{stat("/a")}, {lstat("/a")}, {mk("/ok")}}, permute: true, cut: -1},
 			{callers: [][]cop{{wa(0, "PQ")}, {wa(2, "RS")}, {wa(4, "TU")}}, permute: true, cut: -1},
+		}
+	case "ctx":
+		rd := func(p string) cop { return cop{kind: "ReadDirCtx", path: p} }
+		rm := func(p string) cop { return cop{kind: "Mkdir", path: p} }
+		return []callsSpec{
+			{ctxCancel: true, callers: [][]cop{{rd("/dir"), lstat("/x"), rm("/deny/q"), stat("/y")}}, permute: true, cut: -1},
+			{ctxCancel: true, callers: [][]cop{{rd("/dir"), rl("/l")}, {stat("/z"), rp("/w")}}, permute: true, cut: -1},
 		}
 	case "mc":
 		ra6 := func(off int) cop { return cop{kind: "ReadAt6", off: off} }
@@ -438,9 +468,9 @@ func init() {
 				return reg.Job{Part: "C03/calls", Build: "instr", Args: map[string]string{"set": set, "strategy": strat, "bound": fmt.Sprint(bound)}, Shards: 16, BudgetS: budget, Label: set + " " + strat + fmt.Sprint(bound), Optional: opt}
 			}
 			if tier == "thorough" {
-				return []reg.Job{j("2x1", "por", 0, 600, false), j("2x2", "db", 4, 900, false), j("3x1", "db", 4, 900, false), j("3x2", "db", 3, 600, false), j("mc", "db", 3, 900, false), j("2x2", "por", 0, 900, true), raceJob(tier), confJob(tier)}
+				return []reg.Job{j("2x1", "por", 0, 600, false), j("2x2", "db", 4, 900, false), j("3x1", "db", 4, 900, false), j("3x2", "db", 3, 600, false), j("mc", "db", 3, 900, false), j("ctx", "db", 3, 900, false), j("2x2", "por", 0, 900, true), raceJob(tier), confJob(tier)}
 			}
-			return []reg.Job{j("2x1", "por", 0, 100, false), j("2x2", "db", 3, 100, false), j("3x1", "db", 3, 100, false), j("mc", "db", 2, 100, false), raceJob(tier), confJob(tier)}
+			return []reg.Job{j("2x1", "por", 0, 100, false), j("2x2", "db", 3, 100, false), j("3x1", "db", 3, 100, false), j("mc", "db", 2, 100, false), j("ctx", "db", 3, 100, false), raceJob(tier), confJob(tier)}
 		},
 	})
 }
